@@ -65,6 +65,12 @@ func init() {
 				out = append(out, pad)
 			}
 		}
+		if len(in) > 0 {
+			if e.b64Origin == nil {
+				e.b64Origin = map[string][]*sym.Term{}
+			}
+			e.b64Origin[termKey(out)] = in
+		}
 		return Str{out}
 	}
 	intrinsics["(*encoding/base64.Encoding).DecodeString"] = func(e *Exec, fn *ssa.Function, a []Value) Value {
@@ -72,6 +78,11 @@ func init() {
 		alpha, pad := e.b64Alphabet(recv)
 		s := a[1].(Str).B
 		tb := e.tb
+		if orig, ok := e.b64Origin[termKey(s)]; ok {
+			// the string is, term for term, the output of EncodeToString in this run: decode(encode(x)) = x (encoding/base64 contract)
+			e.rep.Stubs["base64 DecodeString applied to the EncodeToString output of the same run: result taken as the encoded bytes (decode(encode(x)) = x)"]++
+			return Tuple{e.newByteSlice(append([]*sym.Term{}, orig...)), Iface{}}
+		}
 		// CR/LF are skipped by the real decoder: outside the model
 		var noNL []*sym.Term
 		for _, c := range s {
@@ -144,4 +155,13 @@ func init() {
 		}
 		return Tuple{e.newByteSlice(out), Iface{}}
 	}
+}
+
+func termKey(ts []*sym.Term) string {
+	b := make([]byte, 0, 4*len(ts))
+	for _, t := range ts {
+		id := t.ID
+		b = append(b, byte(id), byte(id>>8), byte(id>>16), byte(id>>24))
+	}
+	return string(b)
 }
